@@ -50,6 +50,8 @@ func (c06) Cases(tier string, seed int64, kf *KnownFindings) []Case {
 	cs = append(cs, Case{Kind: "lit", S: "named-map-with-containers", Count: 4, Sub: -1})
 	cs = append(cs, Case{Kind: "lit", S: "two-names-one-type", Count: 4, Sub: -1})
 	cs = append(cs, Case{Kind: "lit", S: "untyped-empty", Count: 4, Sub: -1})
+	cs = append(cs, Case{Kind: "lit", S: "skew-then-resent", Count: 4, Sub: -1})
+	cs = append(cs, Case{Kind: "faultcont", Count: 24, Sub: -1})
 	if tier == "thorough" {
 		// all histories of length <= 3 over a 12-value alphabet: 12 + 144 + 1728
 		for a := 0; a < 12; a++ {
@@ -129,8 +131,25 @@ func streamAlphabet() []interface{} {
 	}
 }
 
+// c06Wide is what the sender has, c06Narrow what the receiver registers under the same class name
+type c06Wide struct {
+	Extra *zoo.Inner
+	More  []*zoo.Inner
+	N     int32
+	Keep  *zoo.Inner
+}
+
+type c06Narrow struct {
+	N    int32
+	Keep *zoo.Inner
+}
+
 func (c06) Run(c Case, env *Env) Result {
 	var res Result
+	if c.Kind == "faultcont" {
+		c06faultContinue(c, env, &res)
+		return res
+	}
 	lo, hi := subRange(c)
 	alpha := streamAlphabet()
 	for j := lo; j < hi; j++ {
@@ -186,6 +205,42 @@ func (c06) Run(c Case, env *Env) Result {
 				// strings that end in a cut-off lead octet, each followed by a value whose first octets
 				// could be taken for continuation octets (x80..xbf are the one-octet ints -16..47)
 				hist = []interface{}{"ab\xe4", int32(0), "x\xf0\x9f", int32(16), int32(47), "\xc3", int32(-16), "caf\xe9", "tail", &zoo.Inner{A: 1, S: "z\xe4\xb8"}, int32(1)}
+			case "skew-then-resent":
+				// version skew on a stream: the sender's class has fields the receiver's struct lacks; objects first
+				// sent inside such a dropped field are sent AGAIN later (as values of their own, in kept fields):
+				// the receiver must get the objects, of their registered types
+				in1, in2 := &zoo.Inner{A: 1, S: "one"}, &zoo.Inner{A: 2, S: "two"}
+				w1 := &c06Wide{Extra: in1, More: []*zoo.Inner{in2}, N: 1}
+				w2 := &c06Wide{Extra: in2, N: 2, Keep: in1}
+				sent := []interface{}{w1, in1, "between", w2, in2, []interface{}{in1, in2}}
+				hist = []interface{}{&c06Narrow{N: 1}, in1, "between", &c06Narrow{N: 2, Keep: in1}, in2, []interface{}{in1, in2}}
+				pw := &mon.CountingWriter{}
+				pnm := map[string]string{"c06Wide": "c06.Rec", "Inner": "Inner", "[]*zoo.Inner": "[zoo.Inner"}
+				var penc *hessian.Encoder
+				var pser hessian.Serializer
+				if j%2 == 0 {
+					penc = hessian.NewEncoder(pw, pnm)
+				} else {
+					pser = hessian.NewSerializer(nil, pnm)
+				}
+				for i, v := range sent {
+					var err error
+					switch {
+					case penc != nil:
+						err = penc.WriteObject(v)
+					case i == 0:
+						err = pser.WriteTo(pw, v)
+					default:
+						err = pser.Write(v)
+					}
+					if err != nil {
+						res.Inconclusive = append(res.Inconclusive, "skew-then-resent: the sender could not write: "+err.Error())
+					}
+					preOffs = append(preOffs, pw.Buf.Len())
+				}
+				preStream = append([]byte{}, pw.Buf.Bytes()...)
+				preTm = map[string]reflect.Type{"c06.Rec": reflect.TypeOf(c06Narrow{}), "Inner": reflect.TypeOf(zoo.Inner{}), "[zoo.Inner": reflect.TypeOf([]*zoo.Inner{})}
+				featSet["version-skew"], featSet["dropped-then-resent"] = true, true
 			case "untyped-empty":
 				// empty and nil lists travelling untyped: first inside a typed field, then (as the encoder sees
 				// it: the same empty container again) at a generic position, and the other way round
@@ -519,4 +574,120 @@ func (c06) Run(c Case, env *Env) Result {
 		}
 	}
 	return res
+}
+
+// c06faultContinue: the writer fails ONCE, on the first Write of value #f of a stream, and recovers. The failed call
+// must report the failure (C15's business); what C06 judges is every LATER call on that stream that reports
+// success: a value reported as written is on the stream, so reading the stream from its start must return
+// exactly the values whose writes succeeded, in order, each equal to the original with its sharing. (An
+// encoder that refuses to go on after a failure never reaches this oracle; one that goes on must go on right.)
+func c06faultContinue(c Case, env *Env, res *Result) {
+	lo, hi := subRange(c)
+	for j := lo; j < hi; j++ {
+		ring := func(id int32) *zoo.GNode {
+			p, q := &zoo.GNode{Id: id}, &zoo.GNode{Id: id + 1}
+			p.A, q.A, q.B = q, p, q
+			q.Kids = []*zoo.GNode{p, q}
+			return p
+		}
+		shared := &zoo.Inner{A: 7, S: "shared"}
+		r1, r2 := ring(10), ring(20)
+		vals := []interface{}{&zoo.WithInner{X: zoo.Inner{A: 1, S: "x"}, P: shared, N: 5}, r1, r2, &zoo.SlPtr{V: []*zoo.Inner{shared, shared}}, r1, shared}
+		f := j % 3 // the value whose first Write fails
+		mode := (j / 3) % 2
+		retry := (j/6)%2 == 1
+		if retry {
+			// the caller retries the failed value right away
+			vals = append(vals[:f+1], append([]interface{}{vals[f]}, vals[f+1:]...)...)
+		}
+		tm, nm := map[string]reflect.Type{}, map[string]string{}
+		for _, v := range vals {
+			mergeMaps(tm, nm, v)
+		}
+		cc := c
+		cc.Sub = j
+		res.Evals++
+		res.NT = append(res.NT, Hash64(fmt.Sprint("faultcont", j)))
+		feats := []string{"writer-fails-once-then-stream-continues", "mode=" + []string{"Encoder", "Serializer"}[mode]}
+		viol := func(class, detail string) {
+			env.Viol(res, Violation{Class: class, Features: feats, Detail: detail, Case: cc})
+		}
+		w := &mon.CountingWriter{}
+		var okVals []interface{}
+		clean := true
+		pi, _ := Guard(func() {
+			var enc *hessian.Encoder
+			var ser hessian.Serializer
+			if mode == 0 {
+				enc = hessian.NewEncoder(w, copyNames(nm))
+			} else {
+				ser = hessian.NewSerializer(tm, copyNames(nm))
+			}
+			for i, v := range vals {
+				before := w.Buf.Len()
+				if i == f {
+					w.Kind, w.K = mon.FaultOnce, w.Calls+1
+				}
+				var err error
+				switch {
+				case enc != nil:
+					err = enc.WriteObject(v)
+				case i == 0:
+					err = ser.WriteTo(w, v)
+				default:
+					err = ser.Write(v)
+				}
+				if i == f {
+					w.Kind = mon.FaultNone
+				}
+				switch {
+				case err == nil && i != f:
+					okVals = append(okVals, v)
+				case err == nil:
+					clean = false // the failed call reported success: C15 reports that; the stream is not judged here
+				case w.Buf.Len() != before:
+					clean = false // part of a refused value reached the stream: nothing after it can be framed
+				}
+			}
+		})
+		if pi != nil {
+			viol("panic@write", pi.Msg)
+			continue
+		}
+		res.Count("values_reported_written_after_a_recovered_writer_failure", int64(len(okVals)-f))
+		if !clean || len(okVals) <= f {
+			res.Count("streams_not_continued_after_the_failure", 1)
+			continue
+		}
+		// the stream holds exactly okVals
+		var rerr error
+		var outs []interface{}
+		pi, _ = Guard(func() {
+			dec := hessian.NewDecoder(mon.NewReader(w.Buf.Bytes()), tm)
+			for range okVals {
+				var o interface{}
+				if o, rerr = dec.ReadObject(); rerr != nil {
+					return
+				}
+				outs = append(outs, o)
+			}
+		})
+		switch {
+		case pi != nil:
+			viol("panic@read", pi.Msg)
+		case rerr != nil:
+			viol("dec-error", fmt.Sprintf("write #%d failed once (reported), %d later writes reported success; reading the stream: value #%d of %d: %v", f+1, len(okVals)-f, len(outs)+1, len(okVals), rerr))
+		default:
+			for i, v := range okVals {
+				if d := zoo.Equiv(v, outs[i], zoo.EquivOpts{}); d != "" {
+					viol("mismatch", fmt.Sprintf("write #%d failed once (reported); value #%d read from the stream (%s): %s", f+1, i+1, describe(v), d))
+					break
+				}
+				if d := zoo.SameSharing(v, outs[i]); d != "" {
+					viol("mismatch", fmt.Sprintf("write #%d failed once (reported); value #%d read from the stream (%s): %s", f+1, i+1, describe(v), d))
+					break
+				}
+			}
+		}
+	}
 }
